@@ -415,6 +415,13 @@ class VCF(Harness):
             getattr(d.info, key)              # history: an INFO key was read on the whole table before the selection is made
         if skel.get("select") is not None:
             d = d[list(skel["select"])]       # the selected records, in the order of the index list
+        if skel.get("concat_parts"):
+            # selections of the table (their INFO texts differ in size) put together again with np.concatenate
+            parts = [d[list(p)] for p in skel["concat_parts"]]
+            if skel.get("touch_parts"):
+                for p in parts:
+                    p.info                    # history: the INFO column of every operand was taken (no key read) before the concatenation
+            d = ctx.np.concatenate(parts)
         res = dict(n=len(d), chrom=ctx.lst(d.chromosome.raw()), pos=ctx.lst(d.position), id=ctx.lst(d.id), ref=ctx.lst(d.ref_seq),
                    alt=ctx.lst(d.alt_seq), filter=ctx.lst(d.filter), dp=ctx.lst(d.info.DP), fl=ctx.lst(d.info.FL))
         if any(rec.get("af") for rec in skel["recs"]):
@@ -438,13 +445,19 @@ class VCF(Harness):
             exp["dp"].append(I([g(f"v{r}_d{j}") for j in range(rec["dpw"])]) if rec["info"] != "only_x" else 0)     # an absent Integer key reads as 0
             exp["fl"].append(rec["info"] in ("fl_dp", "dp_fl", "fla_fl_dp"))
             exp["gt"].append([[g(f"v{r}_g{si}_{k}") for k in range(3)] for si in range(len(rec["samples"]))])
-        if skel.get("select") is not None:
-            exp = {k: [v[i] for i in skel["select"]] for k, v in exp.items()}
+        if self._selection(skel) is not None:
+            exp = {k: [v[i] for i in self._selection(skel)] for k, v in exp.items()}
         return exp
+
+    @staticmethod
+    def _selection(skel):
+        if skel.get("concat_parts"):
+            return [i for p in skel["concat_parts"] for i in p]
+        return skel.get("select")
 
     def _recs(self, skel):
         """(source record index, record spec) of the entries of the result, in order"""
-        idx = skel["select"] if skel.get("select") is not None else range(len(skel["recs"]))
+        idx = self._selection(skel) if self._selection(skel) is not None else range(len(skel["recs"]))
         return [(i, skel["recs"][i]) for i in idx]
 
     def post(self, skel, x, out):
